@@ -33,7 +33,7 @@ namespace sim {
 
 struct Outcome {
     std::string vclass, detail, key;
-    uint64_t hash = 0, sig = 0, ticks = 0;
+    uint64_t hash = 0, sig = 0, ticks = 0, sig2 = 0;
     bool nontrivial = false;
     bool failed() const { return !vclass.empty(); }
 };
@@ -52,18 +52,19 @@ struct Engine {
     // filled by execute():
     uint64_t sig = 0, ticks = 0;
     bool nontrivial = false;
+    uint64_t sig2 = 0;   // optional second distinctness measure (0 = none), e.g. hash of the executed thread schedule
 };
 
 inline Outcome run_one(Engine& e, const Plan& p, bool keep_trace = false) {
     trace().reset(keep_trace);
     verdict().clear();
-    e.sig = 0; e.ticks = 0; e.nontrivial = false;
+    e.sig = 0; e.ticks = 0; e.nontrivial = false; e.sig2 = 0;
     trace().ev("plan " + std::to_string(p.hash()));
     e.execute(p);
     Outcome o;
     o.vclass = verdict().vclass; o.detail = verdict().detail; o.key = verdict().key;
     if (o.failed() && o.key.empty()) o.key = o.vclass;
-    o.hash = trace().h; o.sig = e.sig; o.ticks = e.ticks; o.nontrivial = e.nontrivial;
+    o.hash = trace().h; o.sig = e.sig; o.ticks = e.ticks; o.nontrivial = e.nontrivial; o.sig2 = e.sig2;
     return o;
 }
 
@@ -272,7 +273,7 @@ inline int sim_main(int argc, char** argv, Engine& e) {
     int pfd = -1;
     if (!progress.empty()) pfd = open(progress.c_str(), O_WRONLY | O_CREAT | O_TRUNC, 0644);
     uint64_t a_lo = from, a_evals = 0, a_ticks = 0, a_trivial = 0;
-    std::vector<uint64_t> a_sigs;
+    std::vector<uint64_t> a_sigs, a_sigs2;
     auto checkpoint = [&](uint64_t hi) {
         if (verbose) return;
         printf("A %llu %llu %llu %llu %llu\n", (unsigned long long)a_lo, (unsigned long long)hi, (unsigned long long)a_evals, (unsigned long long)a_ticks, (unsigned long long)a_trivial);
@@ -281,8 +282,13 @@ inline int sim_main(int argc, char** argv, Engine& e) {
             for (size_t j = i; j < a_sigs.size() && j < i + 512; j++) { l += ' '; l += std::to_string(a_sigs[j]); }
             puts(l.c_str());
         }
+        for (size_t i = 0; i < a_sigs2.size(); i += 512) {
+            std::string l = "H";
+            for (size_t j = i; j < a_sigs2.size() && j < i + 512; j++) { l += ' '; l += std::to_string(a_sigs2[j]); }
+            puts(l.c_str());
+        }
         fflush(stdout);
-        a_lo = hi; a_evals = a_ticks = a_trivial = 0; a_sigs.clear();
+        a_lo = hi; a_evals = a_ticks = a_trivial = 0; a_sigs.clear(); a_sigs2.clear();
     };
 
     for (uint64_t idx = from; idx < to; idx++) {
@@ -293,6 +299,7 @@ inline int sim_main(int argc, char** argv, Engine& e) {
         if (verbose) printf("E %llu %llu %llu %d %llu %s\n", (unsigned long long)idx, (unsigned long long)o.hash, (unsigned long long)o.sig,
                o.nontrivial ? 1 : 0, (unsigned long long)o.ticks, o.failed() ? o.vclass.c_str() : "OK");
         a_evals++; a_ticks += o.ticks; if (o.nontrivial) a_sigs.push_back(o.sig); else a_trivial++;
+        if (o.sig2) a_sigs2.push_back(o.sig2);
         if (a_evals >= 2000) checkpoint(idx + 1);
         if (!o.failed()) {
             if (samples_left > 0 && o.nontrivial) { samples_left--; printf("P %s\n", p.oneline().c_str()); }
